@@ -16,7 +16,7 @@ INC = ['kernel', 'kernel/hash', 'kernel/multi_aes', 'kernel/multi_aes/aes', 'val
 CLANG_BASE = ['clang++-14', '-std=c++17', '-O1', '-fno-vectorize', '-fno-slp-vectorize', '-fno-unroll-loops',
               '-fno-access-control', '-w', '-DWENCRY_VERIF', '-DOPT_ON', '-S', '-emit-llvm']
 CBMC_CHECKS = ['--unwinding-assertions', '--pointer-overflow-check', '--undefined-shift-check',
-               '--signed-overflow-check', '--drop-unused-functions', '--no-malloc-may-fail']
+               '--signed-overflow-check', '--drop-unused-functions', '--no-malloc-may-fail', '--object-bits', '12']
 
 
 def sh(cmd, **kw):
@@ -175,6 +175,7 @@ class Ob:
         self.replay_result = None
         self.replay_path = None
         self.solver_used = None
+        self.ptr_notes = []
 
 
 SOLVERS = {
@@ -278,6 +279,12 @@ class Run:
         unknown = [(n, d) for n, d, s in props if s == 'UNKNOWN']
         wit = [(n, d) for n, d in failed if 'WITNESS' in d]
         real = [(n, d) for n, d in failed if 'WITNESS' not in d]
+        # CBMC's pointer-overflow check flags the formation of one-before / far-past pointers (array-delete loops, end iterators):
+        # no sanitizer confirms those; they are kept as notes and reported separately, never as the violation itself
+        ptrarith = [(n, d) for n, d in real if '.pointer_arithmetic.' in n]
+        real = [(n, d) for n, d in real if '.pointer_arithmetic.' not in n]
+        if ptrarith:
+            ob.ptr_notes = ptrarith[:5]
         unwind_f = [(n, d) for n, d in real if 'unwinding assertion' in d]
         if unwind_f and len(unwind_f) == len(real):
             ob.status, ob.detail = 'UNDECIDED', 'unwinding bound too small: %s' % unwind_f[:3]
@@ -315,12 +322,16 @@ class Run:
                 pass
         with ThreadPoolExecutor(jobs) as ex:
             list(ex.map(self.run_ob, self.obs))
-        for ob in self.obs:
-            if ob.status == 'CEX' and ob.replay == 'native' and ob.trace_inputs is not None:
-                try:
-                    self.replay_native(ob)
-                except BrokenCheck as e:
-                    ob.replay_result = 'ERROR: %s' % e
+        def rp(ob):
+            try:
+                self.replay_native(ob)
+            except BrokenCheck as e:
+                ob.replay_result = 'ERROR: %s' % e
+        todo = [ob for ob in self.obs if ob.status == 'CEX' and ob.replay == 'native' and ob.trace_inputs is not None]
+        for ob in todo[:1]:
+            rp(ob)                       # first one alone: builds the shared real objects
+        with ThreadPoolExecutor(jobs) as ex:
+            list(ex.map(rp, todo[1:]))
 
     # ---- replay on the real sources
     def replay_native(self, ob, assignments=None, keep=True):
@@ -348,12 +359,12 @@ class Run:
         if r.returncode != 0:
             raise BrokenCheck('replay link failed: %s' % r.stderr[-2000:])
         env = dict(os.environ, ASAN_OPTIONS='detect_leaks=0:abort_on_error=0:new_delete_type_mismatch=0:alloc_dealloc_mismatch=0', UBSAN_OPTIONS='print_stacktrace=1')
-        rc, out, err, wall, rss = run_limited([exe], 60, None, cwd=d, env=env)
+        rc, out, err, wall, rss = run_limited([exe], 20, None, cwd=d, env=env)
         txt = (out + '\n' + err)
         if rc == 0 and 'REPLAY-PASS' in out:
             ob.replay_result = 'NOT-REPRODUCED'
         elif rc is None:
-            ob.replay_result = 'REPRODUCED (hang: no termination within 60 s)'
+            ob.replay_result = 'REPRODUCED (hang: no termination within 20 s)'
         elif 'REPLAY-ASSUME-VIOLATED' in txt:
             ob.replay_result = 'NOT-REPRODUCED (assumption violated natively)'
         else:
@@ -432,7 +443,7 @@ class Run:
                           solver=o.solver_used, wall_s=round(o.wall, 1), rss_mb=o.rss_kb // 1024, note=o.note,
                           **({'replay': o.replay_result} if o.replay_result else {})) for o in self.obs][:400],
             known_findings=[dict(obligation=o.name, key=o.known_key, text=t, replay=o.replay_result) for o, t in known_hits],
-            notes=self.notes,
+            notes=self.notes, pointer_overflow_notes=[dict(obligation=o.name, props=o.ptr_notes) for o in self.obs if o.ptr_notes][:20],
         )
         cov.update(self.extra_cov)
         ev = dict(property_id=self.prop, tier=self.tier, seed=self.seed, level=self.level, coverage=cov,
